@@ -87,7 +87,8 @@ def read_constants(tree):
 
 def read_classifier(tree):
     """-> (none_type, lists, ladder, else_type); ladder items:
-    ('listre', listname, index, flags, const) | ('eq', lit, const) | ('pre', lit, const)"""
+    ('listre', listname, index, flags, start, const) | ('eq', lit, const) | ('pre', lit, const);
+    `start`: the names compared with `in` are `<list>[start:]`"""
     f = func(tree, '_getTextTypeByMediaType')
     need(f.args.args[0].arg == 'media_type', 'first parameter media_type')
     body = strip_doc(f.body)
@@ -130,15 +131,23 @@ def read_test(t, lists):
     if isinstance(t, ast.BoolOp) and isinstance(t.op, ast.Or) and len(t.values) == 2:
         a, b = t.values
         need(isinstance(a, ast.Compare) and is_name(a.left, 'media_type') and len(a.ops) == 1
-             and isinstance(a.ops[0], ast.In) and isinstance(a.comparators[0], ast.Name)
-             and a.comparators[0].id in lists, '`media_type in <list>`')
-        lname = a.comparators[0].id
+             and isinstance(a.ops[0], ast.In), '`media_type in <list>`')
+        c = a.comparators[0]
+        start = 0
+        if isinstance(c, ast.Subscript):        # `<list>[k:]`
+            need(isinstance(c.slice, ast.Slice) and c.slice.upper is None and c.slice.step is None
+                 and isinstance(c.slice.lower, ast.Constant) and isinstance(c.slice.lower.value, int)
+                 and c.slice.lower.value >= 0, '`<list>[k:]` with a literal k')
+            start = c.slice.lower.value
+            c = c.value
+        need(isinstance(c, ast.Name) and c.id in lists, '`media_type in <list>` / `<list>[k:]`')
+        lname = c.id
         need(isinstance(b, ast.Call) and isinstance(b.func, ast.Attribute) and is_name(b.func.value, 're')
              and b.func.attr == 'match' and len(b.args) == 3 and not b.keywords
              and isinstance(b.args[0], ast.Subscript) and is_name(b.args[0].value, lname)
              and isinstance(b.args[0].slice, ast.Constant) and is_name(b.args[1], 'media_type'),
              '`re.match(<list>[k], media_type, flags)`')
-        return ('listre', lname, b.args[0].slice.value, re_flags(b.args[2]))
+        return ('listre', lname, b.args[0].slice.value, re_flags(b.args[2]), start)
     if isinstance(t, ast.Compare) and is_name(t.left, 'media_type') and len(t.ops) == 1 \
             and isinstance(t.ops[0], ast.Eq):
         return ('eq', const_str(t.comparators[0]))
@@ -265,6 +274,9 @@ SELF_CHECK = [
     '<?xml encoding="a" encoding="b"?>', '<?xml version="1.0" encoding="a\'b" x="c"?>?>', '<?xmlencoding="a"?>',
     '<?xml version="1.0"\n encoding="a"?>', '<?xml  encoding=""?> encoding="x"?>', '', '<?xml', '<?xml encoding="a"',
     '<?xml version="1.0" encoding="a" standalone="yes"?><a b="c"?>',
+    '<?xml version="1.0"\nencoding="iso-8859-1"?><a/>', "<?xml\tversion = '1.1'\r\n encoding\t=\n'X' ?>", '<?xml version="1.0"?><x encoding="ascii"/><?pi ?>',
+    '<?xml-stylesheet href="a" encoding="pi"?>', '<?xml version="1.0" encoding="a" ?x?>', '<?xml version="1.0" encoding="a"',
+    '<?xml version="1.0\' encoding=\'a"?>', '<?xml\x0bversion="1"\xa0encoding="b"?>',
 ]
 
 
@@ -309,13 +321,13 @@ def generate(repo):
     w('namespace CssVerif.Gen.C20')
     w('open CssVerif')
     w('')
-    w('/-! text-type constants (`encutils/__init__.py:76-94`) -/')
+    w('/-! text-type constants -/')
     for c in CONST_NAMES:
         w('def %s : Nat := %d' % (lean_name(c), consts[c]))
     w('')
     w('/-- one rung of the `if/elif` ladder of `_getTextTypeByMediaType` -/')
     w('inductive Rule where')
-    w('  | listRe (lits : List (List Nat)) (re : Re) (ty : Nat)   -- `media_type in L or re.match(L[k], media_type, flags)`')
+    w('  | listRe (lits : List (List Nat)) (re : Re) (ty : Nat)   -- `media_type in L[j:] or re.match(L[k], media_type, flags)`')
     w('  | eq (lit : List Nat) (ty : Nat)                         -- `media_type == lit`')
     w('  | pre (lit : List Nat) (ty : Nat)                        -- `media_type.startswith(lit)`')
     w('deriving DecidableEq')
@@ -329,7 +341,7 @@ def generate(repo):
     res = {}
     for r in ladder:
         if r[0] == 'listre':
-            _, lname, k, fl, _c = r
+            _, lname, k, fl, _start, _c = r
             need(0 <= k < len(lists[lname]), 'list index')
             try:
                 ast_re = relib.parse(lists[lname][k], fl)
@@ -340,14 +352,14 @@ def generate(repo):
             w('/-- `re.match(%s[%d], media_type, flags=%d)` : %r -/' % (lname, k, fl, lists[lname][k]))
             w('def %s_re : Re := %s' % (lname, relib.tolean(ast_re)))
     w('')
-    w('/-- value returned for a falsy media type (`:191-192`) -/')
+    w('/-- value returned for a falsy media type -/')
     w('def noneType : Nat := %s' % lean_name(none_type))
-    w('/-- the ladder in source order (`:203-216`) -/')
+    w('/-- the ladder in source order -/')
     w('def ladder : List Rule := [')
     rows = []
     for r in ladder:
         if r[0] == 'listre':
-            rows.append('  .listRe %s %s %s' % (r[1], res[r[1]], lean_name(r[4])))
+            rows.append('  .listRe (%s.drop %d) %s %s' % (r[1], r[4], res[r[1]], lean_name(r[5])))
         elif r[0] == 'eq':
             rows.append('  .eq %s %s  -- %r' % (lean_str(r[1]), lean_name(r[2]), r[1]))
         else:
@@ -359,22 +371,22 @@ def generate(repo):
         else:
             w(row + (',' if i + 1 < len(rows) else ''))
     w(']')
-    w('/-- the final `else` (`:217-218`) -/')
+    w('/-- the final `else` -/')
     w('def elseType : Nat := %s' % lean_name(else_type))
     w('')
-    w('/-! `_getTextType` (`:228`): `text[:%d].find(%r) != -1` -/' % (tt[0], tt[1]))
+    w('/-! `_getTextType`: `text[:%d].find(%r) != -1` -/' % (tt[0], tt[1]))
     w('def sniffWindow : Nat := %d' % tt[0])
     w('def sniffNeedle : List Nat := %s' % lean_str(tt[1]))
     w('def sniffYes : Nat := %s' % lean_name(tt[2]))
     w('def sniffNo : Nat := %s' % lean_name(tt[3]))
     w('')
-    w('/-- `defaultencodings` of `encodingByMediaType` (`:246-253`), in source order (dict: last entry of a key wins) -/')
+    w('/-- `defaultencodings` of `encodingByMediaType`, in source order (dict: last entry of a key wins) -/')
     w('def defaultEncodings : List (Nat × Option (List Nat)) := [')
     for i, (k, v) in enumerate(defaults):
         w('  (%s, %s)%s  -- %r' % (lean_name(k), lean_opt_str(v), ',' if i + 1 < len(defaults) else '', v))
     w(']')
     w('')
-    w('/-- `bomDict` (`:357-363`), in source order -/')
+    w('/-- `bomDict`, in source order -/')
     w('def bomDict : List (List (Option Nat) × List Nat) := [')
     for i, (key, name) in enumerate(bom):
         ks = ', '.join('none' if x is None else 'some %d' % x for x in key)
@@ -383,7 +395,7 @@ def generate(repo):
     w('/-- `fp.read(%d)` for the BOM, `fp.read(%d)` for the declaration -/' % (read1, read2))
     w('def bomRead : Nat := %d' % read1)
     w('def declRead : Nat := %d' % read2)
-    w('/-- the literal default (`:421`) -/')
+    w('/-- the literal default -/')
     w('def xmlDefault : List Nat := %s  -- %r' % (lean_str(default), default))
     w('')
     w('/-! `xmlDeclPattern` (flags=%d), split at the named group `encstr`; the leading `^` is dropped' % flags)
